@@ -1,7 +1,7 @@
 (* Model of the shape logic of BasePolicy.predict / obs_to_tensor (policies.py), is_vectorized_*_observation
    (utils.py), maybe_transpose (preprocessing.py), VecTransposeImage.transpose_image, DQN.predict's epsilon branch,
    plus clip / unscale / one-hot.  Shapes are lists of Z.  Definitions only. *)
-From Coq Require Import ZArith QArith Qminmax List Bool.
+From Coq Require Import ZArith QArith Qminmax Qabs List Bool.
 Import ListNotations.
 Local Open Scope Z_scope.
 
@@ -123,6 +123,23 @@ Fixpoint one_hot_from (i n v : nat) : list Z :=
   | S n' => (if Nat.eqb i v then 1 else 0) :: one_hot_from (S i) n' v
   end.
 Definition onehot (n v : nat) : list Z := one_hot_from 0 n v.
+
+(* MultiDiscrete observations: concatenation of the per-dimension one-hot encodings, in dimension order *)
+Fixpoint onehot_concat (nvec vals : list nat) : list Z :=
+  match nvec, vals with
+  | n :: ns, v :: vs => onehot n v ++ onehot_concat ns vs
+  | _, _ => []
+  end.
+
+(* Box actions: what predict() returns for one coordinate of the policy's low-level output x *)
+Definition predict_value (squash : bool) (lo hi x : Q) : Q := if squash then unscale lo hi x else qclip x lo hi.
+
+Definition qclose1 (tol m i : Q) : bool := Qle_bool (Qabs (m - i)) (tol + tol * Qabs m).
+Fixpoint check_values (squash : bool) (l : list (Q * Q * Q * Q)) : list bool :=
+  match l with
+  | [] => []
+  | (lo, hi, x, impl) :: r => qclose1 (1 # 100000) (predict_value squash lo hi x) impl :: check_values squash r
+  end.
 
 (* correspondence entry point *)
 Definition show_opt (x : option shape) : list Z := match x with Some s => 1 :: s | None => [0] end.
